@@ -16,13 +16,14 @@ THEOREMS = ["Mpir.AliasMem.ofInts_ok",
             "Mpir.AliasMem.mod_ptr_spec", "Mpir.AliasMem.divexact_ptr_spec", "Mpir.AliasMem.div3_alias",
             "Mpir.AliasMem.mul_2exp_ptr_spec", "Mpir.AliasMem.tdiv_q_2exp_ptr_spec",
             "Mpir.AliasMem.mpz_and_ptr_spec", "Mpir.AliasMem.mpz_xor_ptr_spec", "Mpir.AliasMem.logic_ptr_spec", "Mpir.AliasMem.mpz_com_ptr_spec",
+            "Mpir.AliasMem.mpz_neg_ptr_spec", "Mpir.AliasMem.mpz_abs_ptr_spec", "Mpir.AliasMem.mpz_set_ptr_spec",
             "Mpir.Mpf.mpf_neg_alias", "Mpir.Mpf.mpf_abs_alias", "Mpir.Mpf.mpf_add_alias", "Mpir.Mpf.mpf_sub_alias",
             "Mpir.Mpf.mpf_add_ui_alias", "Mpir.Mpf.mpf_sub_ui_alias", "Mpir.Mpf.mpf_ui_sub_alias"]
 PINS = [("mpz/tdiv_qr.c", None), ("mpz/tdiv_q.c", None), ("mpz/tdiv_r.c", None),
         ("mpz/fdiv_qr.c", None), ("mpz/cdiv_qr.c", None), ("mpz/fdiv_q.c", None), ("mpz/cdiv_q.c", None),
         ("mpz/fdiv_r.c", None), ("mpz/cdiv_r.c", None), ("mpz/mod.c", None), ("mpz/divexact.c", None),
         ("mpz/mul_2exp.c", None), ("mpz/tdiv_q_2exp.c", None),
-        ("mpz/and.c", None), ("mpz/ior.c", None), ("mpz/xor.c", None), ("mpz/com.c", None),
+        ("mpz/neg.c", None), ("mpz/abs.c", None), ("mpz/and.c", None), ("mpz/ior.c", None), ("mpz/xor.c", None), ("mpz/com.c", None),
         ("mpf/neg.c", None), ("mpf/abs.c", None), ("mpf/add.c", None), ("mpf/sub.c", None), ("mpf/add_ui.c", None),
         ("mpf/sub_ui.c", None), ("mpf/ui_sub.c", None),
         ("mpz/realloc.c", None), ("gmp-impl.h", "MPZ_REALLOC"), ("gmp-impl.h", "MPZ_TMP_INIT"),
@@ -140,3 +141,4 @@ def gen_ops(rng, tier, ctx=None):
             for _ in range(reps * 6):
                 v = [bitval(rng.choice([0, 1, 1, 2, 3, big])) for _ in range(4)]
                 yield "alias_com %x %x 0 0 %s" % (w, a, " ".join(hx(x) for x in v))
+                yield "alias_%s %x %x 0 0 %s" % (rng.choice(["neg", "abs", "set"]), w, a, " ".join(hx(x) for x in v))
